@@ -37,7 +37,7 @@ import (
 	"verifharness/lib"
 )
 
-const rule = "interleave case: distinct (lengths, phase, bytes read first, B mode, GOMAXPROCS, parallelism); loop case: content non-empty or script has a zero-length read/failure; header case: any; document case: distinct (plaintext length, cipher, algorithm, key-name options, scripts)"
+const rule = "interleave case: distinct (lengths, phase, bytes read first, B mode, GOMAXPROCS, parallelism); loop case: content non-empty or script has a zero-length read/failure; header case: any; document case: distinct (plaintext length, cipher, algorithm, key-name options, wrap/unwrap callback modes, scripts). Complete enumerations (independent of the seed): segment loop with segSize in {1,2,3,4,8}, content length 0..3*seg+1: every composition of the content into read sizes up to length 4/7/10/9/8 (quick) resp. 4/7/10/13/13 (thorough), times both EOF styles, times terminal eof/failOnce/failSticky, one zero-length read at every position (content <= 7 quick, all thorough), two zero-length reads at every pair of positions (content <= 4 quick, <= 7 thorough), a failing processFn at every call; header reader: every subset of cut points over the last 12 bytes of the small well-formed headers with 0..3 payload bytes and every truncation offset, times EOF styles and terminals. Everything else (longer contents, extra zero-length reads, oversized headers, mutated headers, the fourth reader script of each toy-AEAD case) is drawn from the seed, hence exhaustive=false for the run as a whole. In this harness additionally complete: the key-name option table (empty/non-empty KeyName x DecryptionKeyName x OmitKeyName x Decrypt-side KeyName), the argument-mutating callback family (4 wrap modes x 3 unwrap modes x 3 lengths), all files of testdata; document scripts, large headers, foreign manifests, interleaved streams and io.Pipe consumers are seeded random. Units: `evaluations` counts cases (one loop/header script, one document, one history); `traces_validated_against_impl` counts individual comparisons of an implementation observable with the value the Lean model computes for it, and a document case contributes several (ciphertext bytes of Encrypt, outcome of Decrypt under the reader script, specDecrypt of the same bytes, header split), so traces can exceed evaluations."
 
 // ---- documents ----
 
@@ -524,7 +524,7 @@ func run(f lib.Flags) {
 		checkTestdata(res, drv)
 		checkLeanDocs(res, drv, rng.Fork(), f.Tier)
 	}
-	res.Exhaustive = true
+	res.Exhaustive = false // the run mixes complete small-scope enumerations with seeded families: see rule
 	res.Write(f.Out)
 }
 
